@@ -176,7 +176,11 @@ func genNumberLit(r *rng.R) string {
 	case 3: // integers around the int32/int64 boundaries, in both directions
 		base := []string{"2147483647", "2147483648", "2147483649", "9223372036854775807", "9223372036854775808", "9223372036854775809", "18446744073709551616", "4294967296"}[r.Intn(8)]
 		return sign + base
-	case 4: // long integers that do not fit any int
+	case 4: // long integers that do not fit any int; whole numbers just beyond the int ranges with few significant digits
+		if r.Bool() {
+			return sign + []string{"9300000000000000000", "9.3e18", "93e17", "9.3E+18", "10000000000000000000", "1e19", "9999990000000000000", "18000000000000000000", "1.8e19",
+				"9223372036854775808.0", "9.5e18", "2200000000", "2.2e9", "4300000000", "43e8", "9000000000000000000", "9e18", "4611686018427388000"}[r.Intn(18)]
+		}
 		return sign + digits(r.Range(19, 30), true)
 	case 5: // whole value with a fraction marker
 		return sign + strconv.Itoa(r.Intn(100000)) + "." + strings.Repeat("0", r.Range(1, 4))
